@@ -26,6 +26,36 @@ def directed(rng: random.Random, tier: str):
             else:
                 hs.round([(3, hs.publish(t, b"q" * 8, src_mod=21))], [1, 3], 1)
             out.append(hs)
+    # notices nested inside the delivery of a notice: the subscriber of type 100 cannot be served; among the
+    # FAILED_MESSAGE subscribers the FIRST one visited fails on the write (so it is removed and CLIENT_CLOSED is
+    # published while the first notice is still being handed out), a subscriber of CLIENT_CLOSED cannot be served
+    # either (a second notice is built inside the first one's delivery), and a later FAILED_MESSAGE subscriber - the
+    # monitor - must still receive the ORIGINAL notice, intact, and the nested one
+    for first_how in ("unwritable", "fault"):
+        for cc_how in ("unwritable", "fault"):
+            for lvl in (60, 40):
+                hs = C.History(loglevel=lvl, tag="nested-notice")
+                for _ in range(5):
+                    hs.round([], [], 0, accept=True)
+                w = [1, 2, 3, 4, 5]
+                # conn 1 = monitor (logger, subscribed to ALL): subscribers of a specific type are visited before the
+                # subscribers of all types, so the failing FAILED_MESSAGE subscriber (conn 3) comes before the monitor
+                hs.round([(1, hs.connect_v2(logger=1, mod_id=25))], w, 0)
+                hs.round([(1, hs.sub("sub", C.ALL))], w, 0)
+                hs.round([(2, hs.connect_v1(src_mod=20)), (3, hs.connect_v1(src_mod=21)), (4, hs.connect_v1(src_mod=22)),
+                          (5, hs.connect_v1(src_mod=23))], w, 0)
+                hs.round([(2, hs.sub("sub", 100))], w, 0)                          # cannot be served below
+                hs.round([(3, hs.sub("sub", C.MT["FAILED_MESSAGE"]))], w, 0)       # first FAILED subscriber: write fails
+                hs.round([(4, hs.sub("sub", C.MT["CLIENT_CLOSED"]))], w, 0)        # cannot be served below
+                hs.fault(3, 0)
+                wr = [1, 3, 5]
+                if first_how == "fault":
+                    hs.fault(2, 0); wr.append(2)
+                if cc_how == "fault":
+                    hs.fault(4, 0); wr.append(4)
+                hs.round([(5, hs.publish(100, b"payload!", src_mod=23))], sorted(wr), 1)
+                hs.round([(5, hs.publish(101, b"after", src_mod=23))], [1, 5], 2)
+                out.append(hs)
     return out
 
 
